@@ -17,6 +17,10 @@ type GenConfig struct {
 	DeployClass  []string // class hashes a deployment / replacement may use (need not be declared)
 	ZeroNoopPct  int      // chance (percent) that a write to a zero slot writes zero
 	RedeclarePct int      // chance (percent) that an already declared class is declared again
+	// DelivPct: chance (percent) that a block which deploys contracts comes with the class definitions of (a
+	// non-empty subset of) its deployed contracts' class hashes that it does not declare itself - whether the
+	// chain knows the class already or not (Diff.Deliv).
+	DelivPct int
 }
 
 func DefaultGenConfig(u *Universe, legacy bool) *GenConfig {
@@ -24,7 +28,7 @@ func DefaultGenConfig(u *Universe, legacy bool) *GenConfig {
 		MinOps: 4, MaxOps: 14, Legacy: legacy,
 		Values:      []string{"1", "2", "3", "deadbeef", BigValue},
 		DeployClass: append(append([]string{}, u.Classes...), "dd"),
-		ZeroNoopPct: 10, RedeclarePct: 3,
+		ZeroNoopPct: 10, RedeclarePct: 3, DelivPct: 10,
 	}
 }
 
@@ -160,7 +164,37 @@ func (g *Gen) Diff() *Diff {
 	shuffle(r, d.Nonce)
 	shuffle(r, d.Store)
 	shuffle(r, d.Decl)
+	g.deliver(d)
 	return d
+}
+
+// deliver decides which class definitions come with the block for its deployed contracts.
+func (g *Gen) deliver(d *Diff) {
+	r := g.R
+	if len(d.Deploy) == 0 || g.Cfg.DelivPct == 0 || !r.Chance(g.Cfg.DelivPct) {
+		return
+	}
+	declared := map[string]bool{}
+	for _, h := range d.Decl {
+		declared[h] = true
+	}
+	var cands []string
+	seen := map[string]bool{}
+	for _, e := range d.Deploy {
+		if !declared[e.V] && !seen[e.V] {
+			seen[e.V] = true
+			cands = append(cands, e.V)
+		}
+	}
+	if len(cands) == 0 {
+		return
+	}
+	shuffle(r, cands)
+	k := 1
+	if len(cands) > 1 && r.Chance(50) {
+		k = 1 + r.Intn(len(cands))
+	}
+	d.Deliv = cands[:k]
 }
 
 func shuffle[T any](r *hx.RNG, l []T) {
